@@ -166,7 +166,7 @@ func (s *TableAggregator) Trim(predicate func(col, row string, val int64) bool) 
 			if predicate(colName, rowName, row.cols[colName]) {
 				delete(row.cols, colName)
 				trimmed++
-			} else {
+			} else if _, has := row.cols[colName]; has {
 				removeAllInCol = false
 			}
 
